@@ -1122,6 +1122,12 @@ func (t *fnTrans) ret(x *ssa.Return) {
 		if label == "" {
 			label = fmt.Sprintf("%d", i+1)
 		}
+		if strings.HasPrefix(label, "assumed-") {
+			// an explicitly assumed postcondition (e.g. "this error is not a CONNACK code", which would need contracts on
+			// the error values of the standard library): callers assume it, the body is not checked against it, and
+			// every such clause is listed in the trusted base
+			continue
+		}
 		if strings.HasPrefix(label, "ghostdef") {
 			// defines ghost bookkeeping (e.g. the ghost clock) that has no counterpart in the code:
 			// assumed by callers, not an obligation of the body
